@@ -22,7 +22,8 @@ def jobs(rng, thorough):
 
 def run(ctx: core.Ctx):
     ctx.lean_stage(extra_props=("C06b",))
-    b2check.run_b2(ctx, jobs, ["C07"], label="api initialisation")
+    results = b2check.run_b2(ctx, jobs, ["C07", "L5run"], label="api initialisation")
+    b2check.l5_fold(ctx, results, "YncaApi.initialize()")
     T = core.tables()
     b2check.run_b2(ctx, lambda rng, th: [(gen.api_reinit(rng, T), rng.randrange(10 ** 9), 0) for _ in range(3000 if th else 60)], ["C07"],
                    label="second initialize() on the same object after a failed first attempt, monitor only", accept=False)
